@@ -483,6 +483,24 @@ class BuiltinMixin:
                 return SList(L.ety, L.n + 1, z3.Lambda([j], z3.If(j == 0, to_term(args[1]), L.a[j - 1])))
             if name == "sort" and not kwargs:
                 return self.sorted_perm(L, st)
+            if name == "remove":
+                # remove the first occurrence; ValueError when absent
+                x = to_term(args[0])
+                q = z3.Int(fresh_name("rm_q"))
+                present = z3.Exists([q], z3.And(0 <= q, q < L.n, L.a[q] == x))
+                self.pending.append((z3.Not(present), "ValueError", None))
+                idx = z3.Int(fresh_name("rm_i"))
+                st.pc = st.pc + (z3.Implies(present, z3.And(0 <= idx, idx < L.n, L.a[idx] == x,
+                                                            z3.ForAll([q], z3.Implies(z3.And(0 <= q, q < idx), L.a[q] != x)))),)
+                R = SList(L.ety, L.n - 1, z3.Lambda([j], z3.If(j < idx, L.a[j], L.a[j + 1])))
+                if L.ety is TInt:
+                    # consequences for strictly ascending lists; proved once as engine lemmas (pyvc.lemmas.REMOVE_*)
+                    from .spec import mem_term, asc_term
+                    pp = z3.Int(fresh_name("rm_p"))
+                    st.pc = st.pc + (z3.Implies(z3.And(present, asc_term(L)), z3.And(
+                        asc_term(R), z3.ForAll([pp], mem_term(R, pp) == z3.And(mem_term(L, pp), pp != x)))),)
+                    self.engine_lemmas.add("list.remove/ascending")
+                return R
             raise Unsupported(f"list.{name} on symbolic list")
         raise Unsupported(f"mutation {name} on {recv!r}")
 
